@@ -458,7 +458,7 @@ def correspond(ctx):
         if rc3 != 0 or not m:
             c.mismatches.append({"kind": "coq-eval", "shard": nm, "output": o[-1500:]})
             continue
-        pairs = re.findall(r"\((\d+)(?:%nat)?,\s*(\d+)(?:%nat)?\)", m.group(1))
+        pairs = re.findall(r"\(\s*(\d+)(?:%nat)?\s*,\s*(\d+)(?:%nat)?\s*\)", m.group(1))
         if m.group(1).strip() != "[]" and not pairs:
             c.mismatches.append({"kind": "coq-eval", "shard": nm, "output": o[-1500:]})
         for idx, mask in pairs:
